@@ -37,6 +37,7 @@ var propConfigs = map[string]propConfig{
 	"C08": {Gen: true},
 	"C11": {Gen: true},
 	"C18": {Gen: true},
+	"C16": {},
 }
 
 var pathSuffix = regexp.MustCompile(`@path\d+$`)
